@@ -96,7 +96,7 @@ static sqf::runtime::runtime::result execute_do(sqf::runtime::runtime& runtime, 
 
         auto instruction = frame.current();
         if (runtime.configuration().max_runtime != std::chrono::milliseconds::zero() &&
-            runtime.configuration().max_runtime + runtime.runtime_timestamp() < std::chrono::system_clock::now())
+            runtime.configuration().max_runtime + runtime.run_start_timestamp() < std::chrono::system_clock::now())
         {
 #ifdef DF__SQF_RUNTIME__ASSEMBLY_DEBUG_ON_EXECUTE
             std::cout << "\x1B[33m[ASSEMBLY ASSERT]\033[0m" <<
@@ -343,6 +343,10 @@ sqf::runtime::runtime::result sqf::runtime::runtime::execute(sqf::runtime::runti
         {
             m_is_exit_requested = false;
             m_is_halt_requested = false;
+            if (m_state == state::empty)
+            { // A new run begins (not the continuation of a halted one): the runtime budget is measured from here
+                m_run_start_timestamp = std::chrono::system_clock::now();
+            }
             m_state = state::running;
             while (!m_contexts.empty())
             {
